@@ -29,6 +29,9 @@ INFO = {
  'C06b': ("items start while 32 x k suspensions are still outstanding; the next resume crashes as an over-resume", "nesting depth >= 96 (two SUSPEND_HALF units in the side counter) followed by >= 64 resumes: the HAS_SIDE_SUSPEND_CNT bit is cleared on every transfer back instead of on the last one"),
  'C08b': ("dispatch_semaphore_wait(FOREVER) returns 0 without a matching signal; a stale kernel post later satisfies an unrelated wait", "a thread blocked in sem_wait on the slow path is interrupted (EINTR): the retry loop around sem_wait was removed"),
  'C05b': ("a semaphore wait is satisfied by a stale post with no signal after the write (semaphore edge of the visibility clause); the count stays off by one", "a timed / polling wait times out while a signal's -1 -> 0 increment lands before the waiter re-reads the value: the undo loop also runs for value 0 (same mechanism as the first-round C08 change, delivered independently for C05)"),
+ 'C04b': ("a barrier starts while an earlier reader is still running (the queue's in-flight count is one too low for the rest of its life)", "a finishing dispatch_barrier_sync hands out all of its owned width to queued non-barrier items and then releases a plain dispatch_sync waiter without reserving width for it (needs as many queued readers as the queue is wide: 4094 by default, 2-4 with dispatch_queue_set_width)"),
+ 'C07b': ("a dispatch_group_wait caller is left behind when the count reaches zero", "three threads on the state word between a leaver's atomic add and its cmpxchg: another thread re-enters, a waiter sets HAS_WAITERS for the new generation, the leaver's retry clears it, the re-entered thread's leave then wakes nobody"),
+ 'C09b': ("callers that arrive while the initialiser runs are never released", ">= 2 callers parked in the kernel on the same predicate when the initialiser finishes: the gate broadcast wakes one futex waiter instead of all"),
  'C19': ("a dispatch_block_cancel that has returned is undone: testcancel reports 0 and the body runs", "another thread cancels while a timed dispatch_block_wait is in progress and that wait then times out: the time-out path writes back the flag word it read on entry instead of clearing only its own bit"),
 }
 V = '/verif'
